@@ -125,11 +125,12 @@ def replay_counterexample(prop, harness, info, tier):
     tdir = os.path.join(CACHE, "kani-replay-target")
     log = os.path.join(LOGS, f"{prop}.{harness}.playback.log")
     cmd = ["cargo", "kani", "--target-dir", tdir, "-Z", "unstable-options", "-Z", "stubbing",
-           "-Z", "concrete-playback", "--concrete-playback=inplace", "--harness-timeout", "1800s",
+           "-Z", "concrete-playback", "--concrete-playback=print", "--harness-timeout", "1800s",
            "--exact", "--harness", f"{info['module']}::{harness}"]
     with open(log, "w") as lf:
         subprocess.run(cmd, cwd=work, env=offline_env(), stdout=lf, stderr=subprocess.STDOUT, timeout=3600)
-    src = open(os.path.join(work, "src", info["module"] + ".rs")).read()
+    # the unit test is printed between ``` fences; it is appended to the harness module by run_playback
+    src = open(log).read()
     m = re.search(r"(#\[test\]\s*fn kani_concrete_playback_" + re.escape(harness) + r"\w*\s*\(\)\s*\{.*?\n\}\n)", src, re.S)
     os.makedirs(os.path.join(REPLAYS, prop), exist_ok=True)
     rpath = os.path.join(REPLAYS, prop, f"{harness}.playback.rs")
@@ -138,7 +139,7 @@ def replay_counterexample(prop, harness, info, tier):
     with open(rpath, "w") as f:
         f.write(f"// engine=K property={prop} harness={harness} module={info['module']}\n")
         f.write(m.group(1))
-    ok, text = run_playback(prop, rpath, work_ready=work)
+    ok, text = run_playback(prop, rpath)
     return ok, rpath, text
 
 
@@ -182,7 +183,8 @@ def run_property(prop, tier, out, timeout_q=300, timeout_t=2400, jobs=16):
     sel.sort()
     known = {e["key"]: e for e in load_known_findings(prop) if e.get("status") == "known" and e.get("engine") == "K"}
     timeout = timeout_q if tier == "quick" else timeout_t
-    tdir = os.path.join(CACHE, "kani-target", prop)
+    # one shared target directory: dependencies are compiled once (setup), cargo's own lock serialises concurrent runs
+    tdir = os.path.join(CACHE, "kani-target", "shared")
     log = os.path.join(LOGS, f"{prop}.kani.{tier}.log")
     rc, wall, data = run_kani([f"{hs[h]['module']}::{h}" for h in sel], tdir, timeout, jobs, log)
     out.coverage["engines"].append("K: Kani 0.68 / CBMC 6.11 (cadical) over the compiled real crates")
